@@ -64,7 +64,9 @@ class Engine(EngineBase):
             if all(not same(sp, s) for s in sps):
                 sps.append(sp)
         cache = rng.choice(["absent", "complete", "partial"])
-        return {"knobs": knobs, "sps": sps, "cache": cache, "cache_upto": rng.randrange(0, n + 1),
+        # some jobs are bare: nothing but the state point file in their directory
+        bare = [rng.random() < 0.25 for _ in sps]
+        return {"knobs": knobs, "sps": sps, "bare": bare, "cache": cache, "cache_upto": rng.randrange(0, n + 1),
                 "ndamage": 40 if tier == "quick" else 0, "multi": 12 if tier == "quick" else 60}
 
     def shrink(self, scenario):
@@ -76,6 +78,8 @@ class Engine(EngineBase):
                     continue
                 c = dict(scenario)
                 c["sps"] = scenario["sps"][:i] + scenario["sps"][i + 1:]
+                if scenario.get("bare"):
+                    c["bare"] = scenario["bare"][:i] + scenario["bare"][i + 1:]
                 c["only"] = [[d[0], d[1] - (d[1] > i)] + ([d[2] - (d[2] > i)] if d[0] == "swap" else list(d[2:]))
                              for d in scenario["only"]]
                 if c["cache_upto"] > i:
@@ -121,8 +125,9 @@ class Engine(EngineBase):
         ids = [cid(s) for s in sps]
         for i, sp in enumerate(sps):
             job = project.open_job(sp).init()
-            job.doc.reset({"lin": i})
-            write_payload(job.path, {"f1": f"DATA:{i}:f1", "sub/g": f"DATA:{i}:g"})
+            if not (sc.get("bare") or [False] * len(sps))[i]:
+                job.doc.reset({"lin": i})
+                write_payload(job.path, {"f1": f"DATA:{i}:f1", "sub/g": f"DATA:{i}:g"})
             if sc["cache"] == "partial" and i + 1 == sc["cache_upto"]:
                 project.update_cache()
         if sc["cache"] == "complete":
